@@ -138,6 +138,8 @@ class Fraction:
         return 0
 
     def __eq__(self, other: Any) -> bool:
+        if not isinstance(other, (Fraction,) + NumberType):
+            return False
         return self.__old_cmp__(other) == 0
 
     def __lt__(self, other: Any) -> bool:
